@@ -19,23 +19,25 @@ for n,p in enumerate(ids):
     if '\n**As built**' in props[p]: props[p]=props[p][:props[p].index('\n**As built**')].rstrip()
 replaced={p:open('/verif/tool/dev/design_parts/%s.md'%p).read().rstrip() for p in ["C06","C12","C13","C18","C19","C20"]}
 after_miss={
- "C01":"R5 (link typestate of list elements) was added after seeded change C01-4 was missed: `Remove` clearing the removed element's links and a cursor fix-up reading `seg.Next()` after `Remove` are each behaviour-preserving, only their conjunction breaks the stream; the rule decides the conjunction. The `newSender` rows of R3 (sndUna/sndNxt/sndNxtList = iss+1, maxSentAck = irs+1) were added with C05-4; the `clone`, `parse` and `newReceiver` rows after seeded change C01-5 was missed (a split-off copy that loses its flags is relabelled with sndNxt); R6 (path table of `logicalLen`, shared with C03/H8 and C02/W7) after C03-5. R7 (the out-of-order heap's Len/Less/Swap/Push/Pop, segment reference counting) and R8 (the generated segment list) were added with the review after round 6; Write's queueing row is checked for C01 as well since C01-7 (an empty segment queued when the buffer is exactly full) was caught only by C02/W1.",
- "C04":"N7 was added after seeded change C04-2 (zero-window test on the unscaled window) was caught only by C02/W1; N8 after C04-3; N6s (the window primitives, same evaluator as C14/S1) after C04-4 was caught only by C14/S1; the `newReceiver` rows of N2 were added with the constructor review after round 5; N3m (MTU chain, FindWndScale) with the review after round 6 and its `encodeMSS` table after C04-7 (the cookie MSS rounded up) was caught only by C07/P2.",
- "C05":"L6 (timer typestate) was added after seeded change C05-2 was missed; the L5 table was extended after C05-3 (`fr.first`) and C05-4 (initial and later stores of `fr.last`, confinement of the field); L7 (Reno window growth, ssthresh reduction, default controller, the packet count handed to `Update`) and the `newSender` rows of L1 were added after the function-coverage listing showed nothing referred to the controller.",
- "C06":"E6m was added after C06-3 was caught only by C09/D5; E7 (shared with C12/T3) after C06-4 was caught only by C12/T3; E0w (interval check of every 16-bit word handed to the checksum, shared with C15/B4w) after C15-4 was missed; the udp `Connect` local-port clause of E3 (`udpConnectPortRule`, shared with C09/D6) after C06-7 was missed.",
- "C12":"The `ResolveStaticAddress` table of T5 was added after seeded change C12-7 (every address ending in .255 treated as broadcast) was missed. T7 (whether resolution is required at all: decision table of `IsResolutionRequired`, exact guards of the only `linkCache` store) was added after seeded change C12-4 was missed.",
- "C13":"I6 (reassembly key, shared with C08/F4) was added after C13-4 was caught only by C08/F4; I7 (masked match, shared with C09/D5 and C06/E6m) after C13-6 was caught only by those; I8 (`ipv4InboundRule`, shared with C08/F4) after C13-7 was caught only by C08/F4.",
- "C16":"V6 (tables of the one-line accessors and constructors: UsedLength, View, NewPrependable, Size, ...) was added after seeded change C16-6 (`cap` for `len` in UsedLength) was missed.",
- "C17":"The `send-unconditional` clause of Y4 was added after seeded change C17-6 (the callback skips the send while another notifier is signalling) was missed. Y6 (no channel receive anywhere in package waiter) was added after seeded change C17-4 was missed: the closed-world comparison of `EventUnregister` is per site kind and its table listed no channel operation.",
- "C07":"P2-contract and P2-progress were refined after seeds C07-1/C07-2 (see §6); P7 after C07-3; P1-ts (the neighbour-cache entry typestate the panic table cites, shared with C12/T2) after C07-7 was caught only by C12/T2.",
- "C08":"F10 (the fragment heap's Len/Less/Swap/Push/Pop), F11 (the generated reassembler list), the `tooOld` table and the Hash3Words dependency check were added with the review after round 6. F9 (link typestate of the reassembler list) and the `newReassembler` rows of F6 were added with the review after round 5. F8 (stale element alias) was added after seeded change C08-2 was missed: inside loops all versions of a field collapse to `@u`, so the exact table F6 could not tell a pointer taken before `append` from one taken after.",
- "C09":"D6 (module-wide register/unregister call-site table) was added after seeded change C09-2 was missed; the `registerEndpoint` table entry after C07-1; D7 after C09-3, extended to the boolean try-acquire form (`TryRefBalanced`, every `tryIncRef` of the module) after C09-5 was missed; D8 (`registrationFlagRule`: Close clears `isRegistered` with its inline unregistration, a successful registration sets it before the function can return) after C09-6 was missed; the tables of `decRef`/`incRef`/`tryIncRef` with the review after round 6; D9 (`echoRouteRefRule`, shared with C13) after C09-7 was caught only by C13/I1; the udp `Connect` local-port clause of D6 with C06-7.",
- "C02":"W6 was added after a mutant of the battery was missed; the zero-length-segment row of `consumeSegment` is checked for C02 as well (W4) since C02-5 was caught only by C01/R3; W7 = the `logicalLen` table shared with C01/R6 and C03/H8; W8 = the timer typestate shared with C05/L6, since C02-6 (an expiry that leaves the timer orphaned: it never re-arms) was caught only by C05/L6; W9 (worker life-cycle: who cleans up, running flag before the goroutine) was added with the review after round 6; the drain-loop rows are checked for C02 as well (W4) since C02-7 (a parked FIN offered with its logical length) was caught only by C01/R3.",
- "C03":"H8 (path table of `logicalLen`: payload + SYN + FIN, each flag on its own) was added after seeded change C03-5 was missed; the `resetState`/`resetToSynRcvd` rows of H3 with the constructor review after round 5; H9 (`registrationFlagRule`, shared with C09/D8: the flag follows the registration at once) after seeded change C03-6 was missed; H10 (half-open connection counter), H11 (swallowed-error search over package tcp) and the tables of `handleSegment` and `Accept` with the review after round 6.",
+ "C20":"X6 (`listenerAcceptLoopRule`: the accept loop waits for a notification only after Accept returned ErrWouldBlock) was added after seeded change C20-9 was missed.",
+ "C19":"Z5a (the amd64 assembly of `commitSleep` read as an instruction list: a single `LOCK CMPXCHGQ` on the word with the expected value loaded before and the result taken from the flags; the Go fallback is decided in the ppc64le configuration of the thorough tier) was added after seeded change C19-8 was missed.",
+ "C01":"R5 (link typestate of list elements) was added after seeded change C01-4 was missed: `Remove` clearing the removed element's links and a cursor fix-up reading `seg.Next()` after `Remove` are each behaviour-preserving, only their conjunction breaks the stream; the rule decides the conjunction. The `newSender` rows of R3 (sndUna/sndNxt/sndNxtList = iss+1, maxSentAck = irs+1) were added with C05-4; the `clone`, `parse` and `newReceiver` rows after seeded change C01-5 was missed (a split-off copy that loses its flags is relabelled with sndNxt); R6 (path table of `logicalLen`, shared with C03/H8 and C02/W7) after C03-5. R7 (the out-of-order heap's Len/Less/Swap/Push/Pop, segment reference counting) and R8 (the generated segment list) were added with the review after round 6; Write's queueing row is checked for C01 as well since C01-7 (an empty segment queued when the buffer is exactly full) was caught only by C02/W1. R9 (`mainLoopExitRule`: the worker leaves its loop only when the receive side is closed too, shared with C02/W5) after C01-8 was caught only by C02/W5; R10 (bit-provenance layout of the TCP header fields, shared with C15/B1) with the round-8 review. R11-R13 (ACK processing, out-of-order buffering, reader wake-up) came from the `-unmentioned` review after round 8; R14 (`segmentQueueRule`) after C05-9; R15 (`initialSequenceProvenanceRule`) after C01-9 was caught only by C03/H2,H14 and C04/N8.",
+ "C04":"N7 was added after seeded change C04-2 (zero-window test on the unscaled window) was caught only by C02/W1; N8 after C04-3; N6s (the window primitives, same evaluator as C14/S1) after C04-4 was caught only by C14/S1; the `newReceiver` rows of N2 were added with the constructor review after round 5; N3m (MTU chain, FindWndScale) with the review after round 6 and its `encodeMSS` table after C04-7 (the cookie MSS rounded up) was caught only by C07/P2. N9 (layout of the TCP window/sequence/acknowledgement fields, shared with C15/B1) with the round-8 review. N10, N11 came from the `-unmentioned` review after round 8; N12 (`handshakeWindowRule`, shared with C03/H3) after C04-9 was caught only by C03/H3.",
+ "C05":"L6 (timer typestate) was added after seeded change C05-2 was missed; the L5 table was extended after C05-3 (`fr.first`) and C05-4 (initial and later stores of `fr.last`, confinement of the field); L7 (Reno window growth, ssthresh reduction, default controller, the packet count handed to `Update`) and the `newSender` rows of L1 were added after the function-coverage listing showed nothing referred to the controller. The `earlier-target-rearms` clause of the timer typestate (L6 = W8) was added after seeded change C05-8 was missed. L8, L9 came from the `-unmentioned` review after round 8; L10 (`segmentQueueRule`) after seeded change C05-9 (bare ACKs no longer counted by the inbound queue) was missed.",
+ "C06":"E6m was added after C06-3 was caught only by C09/D5; E7 (shared with C12/T3) after C06-4 was caught only by C12/T3; E0w (interval check of every 16-bit word handed to the checksum, shared with C15/B4w) after C15-4 was missed; the udp `Connect` local-port clause of E3 (`udpConnectPortRule`, shared with C09/D6) after C06-7 was missed. E8 (`sendPing4Rule`, shared with C13/I3) after C06-8 was caught only by C09/D9 and C13. E9, E10 came from the `-unmentioned` review after round 8.",
+ "C12":"The `ResolveStaticAddress` table of T5 was added after seeded change C12-7 (every address ending in .255 treated as broadcast) was missed. T7 (whether resolution is required at all: decision table of `IsResolutionRequired`, exact guards of the only `linkCache` store) was added after seeded change C12-4 was missed. T8, T9 came from the `-unmentioned` review after round 8.",
+ "C13":"I6 (reassembly key, shared with C08/F4) was added after C13-4 was caught only by C08/F4; I7 (masked match, shared with C09/D5 and C06/E6m) after C13-6 was caught only by those; I8 (`ipv4InboundRule`, shared with C08/F4) after C13-7 was caught only by C08/F4. The gate guards of the ping socket's `sendPing4`/`sendPing6` (I5) after seeded change C13-8 was missed; I9 (ICMP field layout, shared with C15/B1) with the round-8 review. I10 came from the `-unmentioned` review after round 8; I11 (`vvCapLengthRule`) with C11-9; I12 (`reassemblerProcessRule`, shared with C08/F2) after C13-9 was caught only by C08/F2 and C07/P3.",
+ "C16":"V6 (tables of the one-line accessors and constructors: UsedLength, View, NewPrependable, Size, ...) was added after seeded change C16-6 (`cap` for `len` in UsedLength) was missed. The `reslice-unconditional` clause of V1 for `View.CapLength` after seeded change C16-8 was missed. V7 (`NoNarrowing`: closed-world scan of package buffer for narrowing integer conversions, with a positive control on the header codecs) after seeded change C16-9 (`usedIdx` narrowed to `uint16`) was missed.",
+ "C17":"The `send-unconditional` clause of Y4 was added after seeded change C17-6 (the callback skips the send while another notifier is signalling) was missed. Y6 (no channel receive anywhere in package waiter) was added after seeded change C17-4 was missed: the closed-world comparison of `EventUnregister` is per site kind and its table listed no channel operation. The `own-channel-only-for-nil` clause of Y4 after seeded change C17-8 was missed. Y7 (the mask type keeps the 16 bits of poll(2) events) after seeded change C17-9 (`EventMask` narrowed to `uint8`) was missed.",
+ "C07":"P2-contract and P2-progress were refined after seeds C07-1/C07-2 (see §6); P7 after C07-3; P1-ts (the neighbour-cache entry typestate the panic table cites, shared with C12/T2) after C07-7 was caught only by C12/T2. P8 (`echoRouteRefRule`: exactly one release per way out, shared with C13 and C09/D9) after C07-8 was caught only by those. P9 (`receiverBufferingRule`, shared with C01/R12) after C07-9 was caught only by C01/R12.",
+ "C08":"F10 (the fragment heap's Len/Less/Swap/Push/Pop), F11 (the generated reassembler list), the `tooOld` table and the Hash3Words dependency check were added with the review after round 6. F9 (link typestate of the reassembler list) and the `newReassembler` rows of F6 were added with the review after round 5. F8 (stale element alias) was added after seeded change C08-2 was missed: inside loops all versions of a field collapse to `@u`, so the exact table F6 could not tell a pointer taken before `append` from one taken after. F12 (bit-provenance layout of the fragment fields, shared with C15/B1) after C08-8 (13-bit fragment offset masked with 0x0fff) was caught only by C15/B1. F13 came from the `-unmentioned` review after round 8; the unconditional clauses of `HeapImpl` (F10: Push stores and Pop removes on every way out) after seeded change C08-9 was missed; F14 (`vvCapLengthRule`) with C11-9.",
+ "C09":"D6 (module-wide register/unregister call-site table) was added after seeded change C09-2 was missed; the `registerEndpoint` table entry after C07-1; D7 after C09-3, extended to the boolean try-acquire form (`TryRefBalanced`, every `tryIncRef` of the module) after C09-5 was missed; D8 (`registrationFlagRule`: Close clears `isRegistered` with its inline unregistration, a successful registration sets it before the function can return) after C09-6 was missed; the tables of `decRef`/`incRef`/`tryIncRef` with the review after round 6; D9 (`echoRouteRefRule`, shared with C13) after C09-7 was caught only by C13/I1; the udp `Connect` local-port clause of D6 with C06-7. D10-D13 came from the `-unmentioned` review after round 8.",
+ "C02":"W6 was added after a mutant of the battery was missed; the zero-length-segment row of `consumeSegment` is checked for C02 as well (W4) since C02-5 was caught only by C01/R3; W7 = the `logicalLen` table shared with C01/R6 and C03/H8; W8 = the timer typestate shared with C05/L6, since C02-6 (an expiry that leaves the timer orphaned: it never re-arms) was caught only by C05/L6; W9 (worker life-cycle: who cleans up, running flag before the goroutine) was added with the review after round 6; the drain-loop rows are checked for C02 as well (W4) since C02-7 (a parked FIN offered with its logical length) was caught only by C01/R3. The two byte counters of `Write` (sndBufUsed, sndBufInQueue advance by the accepted view's length) became rows of W1 after seeded change C02-8 was missed. W10-W14 came from the `-unmentioned` review after round 8 (W13 then reported C02-9 on its first run); W15 (`segmentQueueRule`) after C05-9.",
+ "C03":"H8 (path table of `logicalLen`: payload + SYN + FIN, each flag on its own) was added after seeded change C03-5 was missed; the `resetState`/`resetToSynRcvd` rows of H3 with the constructor review after round 5; H9 (`registrationFlagRule`, shared with C09/D8: the flag follows the registration at once) after seeded change C03-6 was missed; H10 (half-open connection counter), H11 (swallowed-error search over package tcp) and the tables of `handleSegment` and `Accept` with the review after round 6. H12 (every input of the SYN-cookie hash reaches the hasher: both ports, both addresses, time bucket, nonce) was added after seeded change C03-8 was missed; H13 (TCP field layout, shared with C15/B1) with the round-8 review. H14-H17 came from the `-unmentioned` review after round 8; H18 (`demuxRegistrationRule`, shared with C09/D2) after C03-9 was caught only by C09/D2.",
  "C14":"The conversion clause of S2 (a `seqnum.Value` converted to any plain integer type and then ordered) was added after seeded change C14-5 (`int32(a) < int32(b)`) was missed; S4 (sequence-typed sender/receiver state is initialised from iss/irs, never left at an absolute value) after C14-6 was caught only by C05/L5.",
- "C10":"Q5 was added after seed C10-1; Q6 (module-wide reserve/release call-site table) after C10-2 was missed; the `reserveSpecificPort` table of Q5 after C10-7 (one address set shared between the networks of a reservation) was missed.",
- "C11":"U7 (read-side close table) was added after seeded change C11-2 was missed; the fresh-packet formulation of U2 after C11-1; U8 (reassembly key, shared with C08/F4) after C11-4 was caught only by C08/F4; U9 (link typestate of the packet list) with the review after round 5; the `Route.WritePacket` pass-through rows of U5 and U10 (no examined callee error ends in a nil return anywhere in the UDP, route, IPv4/IPv6 and link packages) after seeded change C11-6 was missed; U11 (the generated packet list) and the `prepareForWrite` table with the review after round 6; U12 (`ipv4InboundRule`, shared with C08/F4) after C11-7 was caught only by C08/F4.",
- "C15":"B4 was planned in round 0 and refined after C06-1/C15-1; the tight room test of B2 was added after C15-2 was missed; B4w (every 16-bit word handed to Checksum/ChecksumCombine anywhere in the module is free of wrapping 16-bit arithmetic and of lossy narrowing, by interval evaluation of the operands) after C15-4 was missed; the room-and-length clause of B2 (every encoder's own room test and written length derivable, shared with C06/E5) after C15-5 was caught only by C06/E5.",
+ "C10":"Q5 was added after seed C10-1; Q6 (module-wide reserve/release call-site table) after C10-2 was missed; the `reserveSpecificPort` table of Q5 after C10-7 (one address set shared between the networks of a reservation) was missed. Q7, Q8 came from the `-unmentioned` review after round 8.",
+ "C11":"U7 (read-side close table) was added after seeded change C11-2 was missed; the fresh-packet formulation of U2 after C11-1; U8 (reassembly key, shared with C08/F4) after C11-4 was caught only by C08/F4; U9 (link typestate of the packet list) with the review after round 5; the `Route.WritePacket` pass-through rows of U5 and U10 (no examined callee error ends in a nil return anywhere in the UDP, route, IPv4/IPv6 and link packages) after seeded change C11-6 was missed; U11 (the generated packet list) and the `prepareForWrite` table with the review after round 6; U12 (`ipv4InboundRule`, shared with C08/F4) after C11-7 was caught only by C08/F4. U13 (`ipv4WritePacketRule`, shared with C06/E1) after C11-8 was caught only by C06/E1; U14 (UDP and IPv4 length field layout, shared with C15/B1) with the round-8 review. U15, U16 came from the `-unmentioned` review after round 8; U17 (`vvCapLengthRule`, shared with C16/V2) after C11-9 was caught only by C16/V2.",
+ "C15":"B4 was planned in round 0 and refined after C06-1/C15-1; the tight room test of B2 was added after C15-2 was missed; B4w (every 16-bit word handed to Checksum/ChecksumCombine anywhere in the module is free of wrapping 16-bit arithmetic and of lossy narrowing, by interval evaluation of the operands) after C15-4 was missed; the room-and-length clause of B2 (every encoder's own room test and written length derivable, shared with C06/E5) after C15-5 was caught only by C06/E5. B5 (`headerChecksumHelpersRule`: what the per-protocol checksum helpers sum over, shared with C06/E1) after C15-8 was caught only by C06/E1.",
 }
 def asbuilt(p):
     ev=json.load(open('/verif/evidence/%s.json'%p))
